@@ -59,13 +59,27 @@ func (h *harness) apiFor(d DefaultCost) *apiWorld {
 	}
 	cfg.AddNamedType(t.o)
 	cfg.AddNamedType(bigType)
+	// `things` also implements a connection interface: selecting `edges` through a fragment on the
+	// interface uses the interface's own `edges` cost function (pagination.go:264-274)
+	iface := apifu.ConnectionInterface(&apifu.ConnectionInterfaceConfig{
+		NamePrefix: "ThingI",
+		EdgeFields: map[string]*graphql.FieldDefinition{
+			"node": {Type: graphql.IntType, Cost: graphql.FieldResolverCost(1)},
+		},
+		HasTotalCount: true,
+	})
 	for _, conn := range []struct {
 		name, prefix string
 		dir          apifu.ConnectionDirection
 	}{{"things", "Thing", apifu.ConnectionDirectionBidirectional}, {"thingsF", "ThingF", apifu.ConnectionDirectionForwardOnly}, {"thingsB", "ThingB", apifu.ConnectionDirectionBackwardOnly}} {
+		var implemented []*graphql.InterfaceType
+		if conn.name == "things" {
+			implemented = []*graphql.InterfaceType{iface}
+		}
 		cfg.AddQueryField(conn.name, apifu.Connection(&apifu.ConnectionConfig{
-			NamePrefix: conn.prefix,
-			Direction:  conn.dir,
+			NamePrefix:            conn.prefix,
+			Direction:             conn.dir,
+			ImplementedInterfaces: implemented,
 			ResolveAllEdges: func(ctx graphql.FieldContext) (interface{}, func(a, b interface{}) bool, error) {
 				edges := make([]int, w.total)
 				for i := range edges {
@@ -417,8 +431,13 @@ func spellArg(arg, spelling string, k int) (argText, varDef string, val *VarVal)
 	return "", "", nil
 }
 
-// connCase builds `query Q(…) { t: <field>(first…, last…) { edges { node cursor } } }`.
+// connCase builds `query Q(…) { t: <field>(first…, last…) { edges { node cursor } } }`; via selects
+// whether the edges are selected on the connection object or through its interface.
 func connCase(field string, total int, firstSp string, first int, lastSp string, last int) Case {
+	return connCaseVia(field, "object", total, firstSp, first, lastSp, last)
+}
+
+func connCaseVia(field, via string, total int, firstSp string, first int, lastSp string, last int) Case {
 	c := Case{Kind: "conn", Total: total, Default: DefaultCost{R: 1}, Max: -1, Vars: map[string]VarVal{}}
 	var args, defs []string
 	for _, a := range []struct {
@@ -447,8 +466,15 @@ func connCase(field string, total int, firstSp string, first int, lastSp string,
 	if len(args) > 0 {
 		call += "(" + strings.Join(args, ", ") + ")"
 	}
-	c.Query = head + " { t: " + call + " { edges { node cursor } } }"
-	c.Note = field + " first=" + firstSp + " last=" + lastSp
+	switch via {
+	case "interface-fragment":
+		c.Query = head + " { t: " + call + " { ...CF } } fragment CF on ThingIConnection { edges { node cursor } }"
+	case "interface-inline":
+		c.Query = head + " { t: " + call + " { ... on ThingIConnection { edges { node ... on ThingIEdge { cursor } } } } }"
+	default:
+		c.Query = head + " { t: " + call + " { edges { node cursor } } }"
+	}
+	c.Note = field + "/" + via + " first=" + firstSp + " last=" + lastSp
 	return c
 }
 
@@ -470,6 +496,14 @@ func (h *harness) connections() {
 			cases = append(cases, connCase("thingsB", total, "absent", 0, sp, hx.Pick(r, []int{0, 1, 3, 20})))
 		}
 	}
+	// the same through the connection interface (its own `edges` cost function)
+	for _, via := range []string{"interface-fragment", "interface-inline"} {
+		for _, fs := range argSpellings {
+			for _, ls := range argSpellings {
+				cases = append(cases, connCaseVia("things", via, hx.Pick(r, []int{0, 3, 25}), fs, hx.Pick(r, []int{0, 1, 2, 5, 20}), ls, hx.Pick(r, []int{0, 1, 2, 7, 20})))
+			}
+		}
+	}
 	// page sizes 0..9 over small collections, forwards and backwards
 	for _, total := range []int{0, 1, 3, 7, 12} {
 		for k := 0; k <= 9; k++ {
@@ -479,7 +513,27 @@ func (h *harness) connections() {
 	}
 	for i := 0; i < h.run.Scale(80, 2000); i++ {
 		field := hx.Pick(r, []string{"things", "things", "thingsF", "thingsB"})
-		cases = append(cases, connCase(field, r.Range(0, 30), hx.Pick(r, argSpellings), r.Range(0, 35), hx.Pick(r, argSpellings), r.Range(0, 35)))
+		via := "object"
+		if field == "things" {
+			via = hx.Pick(r, []string{"object", "interface-fragment", "interface-inline"})
+		}
+		cases = append(cases, connCaseVia(field, via, r.Range(0, 30), hx.Pick(r, argSpellings), r.Range(0, 35), hx.Pick(r, argSpellings), r.Range(0, 35)))
+	}
+	// the whole connection surface (pageInfo, totalCount) — cost only: RequestInfo.Cost = reference = model
+	for _, q := range []string{
+		`{ t: things(first: 4) { edges { node cursor } pageInfo { hasNextPage hasPreviousPage startCursor endCursor } totalCount } }`,
+		`{ t: things(last: 6) { ...CF } } fragment CF on ThingIConnection { edges { node cursor } pageInfo { hasNextPage endCursor } totalCount }`,
+		`{ t: things(first: 3, last: null) { totalCount e1: edges { node } e2: edges { n2: node cursor } } }`,
+		`{ a: thingsF(first: 2) { edges { node } } b: thingsB(last: 5) { edges { node } } c: things(first: null, last: 7) { edges { node } } }`,
+	} {
+		c := Case{Kind: "execute", Query: q, Default: hx.Pick(r, defaults[:6]), Max: -1}
+		f := h.executeOne(c, false)
+		h.run.Count("conn:full-surface-cost")
+		h.run.Case("conn-cost|"+q+fmt.Sprint(c.Default), true)
+		h.run.Oblige("oracle: served default-cost connection resolves ≤ multiplier-charged edges; RequestInfo.Cost = reference (all spellings of first/last)", "oracle", 1, f == nil, fmtFail(f))
+		if f != nil {
+			h.report(f, c)
+		}
 	}
 	for _, c := range cases {
 		f := h.connOne(c, false)
